@@ -112,7 +112,7 @@ def run(ctx):
             ctx.violation('a fully signed standard transaction does not parse back', {'op': 'roundtrip', 'error': repr(e)[:120], 'raw': raw.hex(), **info})
         for vname, base in variants:
             tampers = ['out_value', 'out_script', 'prev_txid', 'output_n', 'sequence', 'locktime', 'version', 'version_bytes', 'in_value', 'sig_corrupt',
-                       'sig_foreign', 'sig_drop']
+                       'sig_foreign', 'sig_drop', 'sig_hashtype']
             for tm in (tampers if T else rng.sample(tampers, 6)):
                 tt = copy.deepcopy(base)
                 i = rng.randrange(len(tt.inputs))
@@ -145,7 +145,7 @@ def run(ctx):
                             expect = 'valid'          # a legacy digest does not commit to the amount
                         # the network uses the real amount: the serialisation is unchanged and stays valid there
                         po2 = None
-                    elif tm in ('sig_corrupt', 'sig_foreign', 'sig_drop'):
+                    elif tm in ('sig_corrupt', 'sig_foreign', 'sig_drop', 'sig_hashtype'):
                         # tamper with the *serialisation*, then parse: this is what a receiver of the bytes sees
                         braw = raw_of(base)
                         sigb = base.inputs[i].signatures[0].as_der_encoded()
@@ -154,6 +154,9 @@ def run(ctx):
                             continue
                         if tm == 'sig_corrupt':
                             newsig = sigb[:-2] + bytes([sigb[-2] ^ 1]) + sigb[-1:]            # flip the last bit of s
+                        elif tm == 'sig_hashtype':
+                            # the hash type byte of the signature says which digest it signs: another byte, another digest
+                            newsig = sigb[:-1] + bytes([rng.choice([0x02, 0x03, 0x81, 0x82, 0x00])])
                         elif tm == 'sig_foreign':
                             digest = base.signature_hash(i, 1, base.inputs[i].witness_type)
                             newsig = sign(digest, Key(rng.randrange(1, 2**200))).as_der_encoded()
@@ -217,6 +220,34 @@ def run(ctx):
             if t.txid != t3.txid or (stripped is not None and t.txid != hashlib.sha256(hashlib.sha256(stripped).digest()).digest()[::-1].hex()):
                 ctx.violation('after sign_and_update() the reported id is not the id of the serialised transaction',
                               {'op': 'resign-txid', 'reported': t.txid, 'parsed_back': t3.txid, 'raw': raw.hex(), **info})
+
+    # --- a multisig input signed by exactly m of its cosigners, changed, and signed again by the same cosigners (replace_signatures):
+    # valid again, with exactly m signatures; Input.valid follows every verdict
+    for trial in range(24 if T else 8):
+        t, d = txgen.build_api_tx(rng, nin=1, max_n=4, public_only=True, kinds=['p2sh_ms', 'p2wsh_ms', 'p2sh_p2wsh_ms'])
+        m0 = d['meta'][0]
+        if len(m0['keys']) < 2:
+            continue
+        po = prevouts(d)
+        signers = rng.sample(m0['keys'], m0['m'])
+        info = {'kinds': [m0['kind']], 'm_of_n': [(m0['m'], len(m0['keys']))], 'schedule': 're-sign by positions %s' % sorted(m0['keys'].index(k_) for k_ in signers)}
+        try:
+            t.sign(list(signers), index_n=0)
+            v1 = lib_verify(t)
+            flag1 = t.inputs[0].valid
+            t.outputs[0].value += 1
+            v2 = lib_verify(t)
+            flag2 = t.inputs[0].valid
+            t.sign(list(signers), index_n=0, replace_signatures=True)
+        except Exception as e:
+            ctx.violation('signing a multisig input again after a change raised', {'op': 'resign-subset', 'error': repr(e)[:120], **info})
+            continue
+        ctx.count('resign-subset')
+        if v1 is True and (flag1 is not True or (v2 is False and flag2 is True)):
+            ctx.violation('Input.valid does not follow the verdict of verify()', {'op': 'input-valid-flag', 'after_signing': [v1, flag1], 'after_change': [v2, flag2], **info})
+        checks.append(('signed', lib_verify(t), 'valid', raw_of(t), po, dict(info, resigned=True, signatures=len(t.inputs[0].signatures))))
+        if len(t.inputs[0].signatures) != m0['m']:
+            ctx.violation('after signing again the input carries another number of signatures than signers', {'op': 'resign-subset', 'signatures': len(t.inputs[0].signatures), **info})
 
     # --- independent verdicts ------------------------------------------------------------------------------------
     idx = [k for k, c in enumerate(checks) if c[3] is not None and c[4] is not None]
